@@ -62,6 +62,12 @@ def shards(tier, seed):
     for func in ("nancumsum", "ffill", "bfill"):
         for k in range(2, b["K"] + 2):
             out.append(dict(leg="scan-tree", func=func, k=k))
+    # blocks that hold the same groups in different orders of appearance, intermediates reindexed at combine time, sort=False
+    for func in ("sum", "nanmax", "nanargmax"):
+        for k in range(2, (4 if tier == "quick" else 5) + 1):
+            nparts = {2: 1, 3: 1, 4: 2, 5: 8}[k]
+            for part in range(nparts):
+                out.append(dict(leg="tree-unsorted", func=func, k=k, part=part, nparts=nparts))
     bb2 = 3 if tier == "quick" else 4
     cfgs = graphcfg.reduce_cfgs(b["lattice_k"], bb2_max_k=bb2) + graphcfg.scan_cfgs(b["lattice_k"], bb2_max_k=0 if tier == "quick" else 3)
     for c in cfgs:
@@ -155,6 +161,48 @@ def tree_point(res, func, dtype, method, lab_tuple, per_block, split_every):
     else:
         res.outcomes["mismatch"] += 1
         res.violate("tree-value", case, dict(chunked=val), dict(eager=eager.result), tags=dict(tags, kind="value"), size=size)
+
+
+def unsorted_tree_point(res, func, block_labels, split_every, method, reindex):
+    """Two elements per block; the label -> value mapping must not depend on split_every (labels come back in an unspecified
+    order with sort=False, so the mapping is compared)."""
+    import dask
+    import dask.array as da
+
+    k = len(block_labels)
+    labels = np.array([x for bl in block_labels for x in bl], dtype=float)
+    V = graphcfg.values_for("float64", 2 * k, 3)
+    arr = da.from_array(V, chunks=((3,), (2,) * k))
+    case = dict(leg="tree-unsorted", func=func, block_labels=[list(b) for b in block_labels], split_every=split_every, method=method, reindex=reindex)
+    tags = dict(func=func, method=method, k=k, split_every=split_every, leg2="tree-unsorted", reindex=str(reindex))
+    size = k * 10 + split_every
+    with dask.config.set(split_every=split_every):
+        out = e1.call_reduce(arr, labels, func=func, method=method, engine="numpy", sort=False, reindex=reindex)
+    res.evaluations += 1
+    res.states += 1
+    res.transitions += 1
+    if out.kind == "refused":
+        res.outcomes[f"refused:{out.exc}"] += 1
+        return
+    if out.kind == "error":
+        res.outcomes[f"error:{out.exc}"] += 1
+        res.violate("tree-error", case, out.brief(), "a result", tags=dict(tags, kind="error", exc=out.exc), size=size)
+        return
+    eager = e1.call_reduce(V, labels, func=func, engine="numpy")
+    res.compared += 1
+    want = {float(g): np.asarray(eager.result)[:, j] for j, g in enumerate(np.asarray(eager.groups[0]).tolist())}
+    got_labels = [float(g) for g in np.asarray(out.groups[0]).tolist()]
+    val = np.asarray(out.result)
+    okay = sorted(got_labels) == sorted(want) and val.shape == (3, len(got_labels))
+    if okay:
+        for j, g in enumerate(got_labels):
+            if rm.mismatch(val[:, j].astype(float), want[g].astype(float), rtol=1e-12).any():
+                okay = False
+    if okay:
+        res.outcomes["ok"] += 1
+    else:
+        res.outcomes["mismatch"] += 1
+        res.violate("tree-value", case, dict(labels=got_labels, chunked=val), dict(labels=sorted(want), eager=eager.result), tags=dict(tags, kind="value"), size=size)
 
 
 def scan_tree_point(res, func, lab_tuple, k):
@@ -273,6 +321,17 @@ def run_shard(shard):
                     if k > se:
                         res.nontrivial += 1
         res.sample(dict(leg="tree", func=shard["func"], method=shard["method"], k=k, split_every=list(range(2, k + 1)), labels=list(lts[len(lts) // 2])))
+    elif leg == "tree-unsorted":
+        k = shard["k"]
+        bls = list(itertools.product(((0.0, 1.0), (1.0, 0.0), (0.0, 0.0), (1.0, 1.0)), repeat=k))
+        bls = [b for i, b in enumerate(bls) if i % shard["nparts"] == shard["part"]]
+        for bl in bls:
+            for se in range(2, k + 1):
+                for method, reindex in (("map-reduce", False), ("map-reduce", None), ("cohorts", None)):
+                    unsorted_tree_point(res, shard["func"], bl, se, method, reindex)
+                    if len(set(bl)) > 1:
+                        res.nontrivial += 1
+        res.sample(dict(leg="tree-unsorted", func=shard["func"], k=k, split_every=list(range(2, k + 1)), block_labels=[list(b) for b in bls[len(bls) // 2]]))
     elif leg == "scan-tree":
         k = shard["k"]
         n = k + 1
@@ -298,7 +357,9 @@ def replay(payload):
     res = Result()
     c = payload["case"]
     leg = payload["leg"]
-    if leg.startswith("tree"):
+    if c.get("leg") == "tree-unsorted":
+        unsorted_tree_point(res, c["func"], tuple(tuple(b) for b in c["block_labels"]), c["split_every"], c["method"], c["reindex"])
+    elif leg.startswith("tree"):
         tree_point(res, c["func"], c["dtype"], c["method"], tuple(unjson_float(c["labels"])), c["per_block"], c["split_every"])
     elif leg.startswith("scan-tree"):
         scan_tree_point(res, c["func"], tuple(unjson_float(c["labels"])), len(c["chunks"]))
